@@ -6,6 +6,7 @@ TC09b  `match_geometry`, body of the per-axis crop/pad derivation loop         -
 TC09c  `geometry_equal`, the whole decision (array comparisons as parameters)  -> Gen.geomEqualDecision
 TC09d  the per-axis tests of both bounds checks (`map_reference_to_indices`,
        `VolumeToVolumeTransformer.__call__`)                                   -> Gen.refBoundsAxis, Gen.v2vBoundsAxis
+TC09e  `match_geometry`, the refusals before the alignment loops (FoR, CS)     -> Gen.mgHead
 
 Loops are not translated: the selectors take the loop *body*, check (textually) what the loop
 ranges over, and the folds are written by hand in `Model/Match.lean`.  Everything that is checked
@@ -199,6 +200,11 @@ class _GeomEqRewrite(ast.NodeTransformer):
         raise Unsupported('call in geometry_equal: ' + _txt(node))
 
 
+class _HeadRewrite(_GeomEqRewrite):
+    def visit_Raise(self, node):      # the exception constructor call is not an expression of interest
+        return node
+
+
 def build_geomeq(tree):
     fn = find_func(tree, '_VolumeBase.geometry_equal')
     have = [a.arg for a in fn.args.args]
@@ -295,7 +301,32 @@ def build_bounds(tree):
     return t1 + '\n\n' + t2, sha
 
 
+# ------------------------------------------------------------------------------------------ TC09e
+def build_matchhead(tree):
+    """head of `match_geometry`: the frame-of-reference and coordinate-system refusals"""
+    fn = find_func(tree, '_VolumeBase.match_geometry')
+    body = strip_doc(fn.body)
+    head = []
+    for st in body:
+        if isinstance(st, ast.Assign) and _txt(st.targets[0]) == 'permute_indices':
+            break
+        head.append(copy.deepcopy(st))
+    else:
+        raise Unsupported('`permute_indices = []` (end of the head of match_geometry) not found')
+    if not head:
+        raise Unsupported('match_geometry has no statements before the alignment loops')
+    head = [_HeadRewrite().visit(s) for s in head]
+    block = _fix(head + [_parse_stmt('return True')])
+    text = translate_block(
+        block, 'mgHead',
+        [('self_for', 'optstr'), ('other_for', 'optstr'), ('self_cs', 'str'), ('other_cs', 'str')], {},
+        doc='`match_geometry`, everything before the alignment loops: refusal (RuntimeError) of a conflicting frame of '
+            'reference or another coordinate system; `.ok true` = the call goes on.')
+    return text, span_sha(head)
+
+
 TARGETS = {
+    'TC09e': {'file': 'volume.py', 'build': build_matchhead},
     'TC09a': {'file': 'volume.py', 'build': build_align, 'imports': IMPORTS},
     'TC09b': {'file': 'volume.py', 'build': build_croppad, 'imports': IMPORTS},
     'TC09c': {'file': 'volume.py', 'build': build_geomeq},
